@@ -31,10 +31,10 @@ THRESHOLDS = {
 }
 
 WEIGHTS = [0, 0.5, 1, 2, 3, 5, 90]
-LEAVES = ["elitism", "novelty", "tournament", "mutation", "crossover", "identity", "evaluate", "adaptive-mutation", "adaptive-crossover", "parameterless-crossover"]
+LEAVES = ["elitism", "novelty", "tournament", "mutation", "crossover", "identity", "evaluate", "adaptive-mutation", "adaptive-crossover", "parameterless-crossover", "lexicase", "epsilon-lexicase"]
 # the steps a random nesting draws from: the five plain ones, and (less often) the self-adjusting mutation / crossover steps of
 # adaptive.py and parameterless.py - under a combinator they also meet slices of size 0
-NEST_LEAVES = LEAVES[:5] * 3 + LEAVES[7:]
+NEST_LEAVES = LEAVES[:5] * 3 + LEAVES[7:10]
 FORMS = ["list", "population", "iterator"]
 
 
@@ -62,6 +62,8 @@ def make_leaf(name, rng=None):
         "adaptive-mutation": lambda: adaptive.GenericAdaptiveMutationStep(p),
         "adaptive-crossover": lambda: adaptive.GenericAdaptiveCrossoverStep(p),
         "parameterless-crossover": lambda: parameterless.GenericAdaptiveCrossoverStep(p),
+        "lexicase": lambda: __import__("geneticengine.algorithms.gp.operators.selection", fromlist=["x"]).LexicaseSelection(),
+        "epsilon-lexicase": lambda: __import__("geneticengine.algorithms.gp.operators.selection", fromlist=["x"]).LexicaseSelection(epsilon=True),
     }[name]()
 
 
@@ -119,18 +121,23 @@ def gen_cases(tier, seed):
 
 
 class Env:
-    def __init__(self, seed, repr_kind="tree", grammar="tiny"):
+    def __init__(self, seed, repr_kind="tree", grammar="tiny", objectives=1):
         from geneticengine.evaluation.sequential import SequentialEvaluator
-        from geneticengine.evaluation.tracker import SingleObjectiveProgressTracker
-        from geneticengine.problems import SingleObjectiveProblem
+        from geneticengine.evaluation.tracker import MultiObjectiveProgressTracker, SingleObjectiveProgressTracker
+        from geneticengine.problems import MultiObjectiveProblem, SingleObjectiveProblem
 
         self.g, _ = evo.tiny() if grammar == "tiny" else evo.tiny_deep()
         self.src = workload.native(seed)
         self.rep = evo.make_rep(repr_kind, self.g, self.src, max_depth=4 if grammar == "tiny" else 6)
-        self.fit = evo.TableFitness()
-        self.prob = SingleObjectiveProblem(self.fit, minimize=False)
         self.ev = SequentialEvaluator()
-        self.tracker = SingleObjectiveProgressTracker(self.prob, self.ev)
+        if objectives > 1:  # (lexicase selection needs a problem with several objectives)
+            self.fit = evo.TableFitness(n_objectives=objectives, modulus=5)
+            self.prob = MultiObjectiveProblem([k % 2 == 0 for k in range(objectives)], self.fit)
+            self.tracker = MultiObjectiveProgressTracker(self.prob, self.ev)
+        else:
+            self.fit = evo.TableFitness()
+            self.prob = SingleObjectiveProblem(self.fit, minimize=False)
+            self.tracker = SingleObjectiveProgressTracker(self.prob, self.ev)
 
     def population(self, n, form, evaluated=True):
         from geneticengine.algorithms.gp.population import Population
@@ -218,10 +225,18 @@ def run_leaf(case, rec):
             if case["leaf"] == "evaluate" and k != n:
                 continue  # EvaluateStep passes the whole population through by design ("evaluates the complete population")
             for _ in range(2):
-                env = Env(rng.randrange(10**6))
+                lex = "lexicase" in case["leaf"]
+                env = Env(rng.randrange(10**6), objectives=3 if lex else 1)
                 inds, pop_arg = env.population(n, case["form"], evaluated=rng.random() < 0.7)
                 if len(inds) < n:
                     continue
+                if lex and n >= 3 and rng.random() < 0.6:
+                    # the same Individual OBJECT at several positions (winners of an earlier selection, elites next to
+                    # unchanged survivors): still a population of n members
+                    inds = inds[: max(2, n - n // 2)]
+                    inds = (inds + inds)[:n]
+                    pop_arg = inds if case["form"] == "list" else (iter(inds) if case["form"] == "iterator" else _as_population(env, inds))
+                    rec.count("lexicase_applications_on_populations_with_repeated_objects")
                 step = make_leaf(case["leaf"], rng)
                 rec.count("leaf_applications")
                 rec.count(f"form:{case['form']}")
